@@ -109,7 +109,7 @@ def validate(records, shards=8):
     return res, mism, len(res.tagged("VALIDATED")), len(res.tagged("SKIPPED"))
 
 
-RISK_ORDER = ["any_word_beside_unfinished_word", "fail_word_incomplete", "fail_not_a_command_candidate", "any_word_at_command_point", "command_candidate_beside_other_command",
+RISK_ORDER = ["any_word_beside_unfinished_word", "command_candidate_beside_unfinished_word", "word_value_beside_unfinished_word", "fail_word_incomplete", "fail_not_a_command_candidate", "any_word_at_command_point", "command_candidate_beside_other_command",
               "word_value_with_longer_sibling",
               "command_candidate_with_blank", "fail_foreign", "word_value", "command_candidate", "any_word", "literal", "after_fail"]
 
@@ -119,6 +119,7 @@ def signature(d, kind):
     classes = d["classes"]
     risky = [c for c in RISK_ORDER if c in classes]
     sig = {"kind": kind, "path_class": risky[0] if risky else "none", "cursor": d["cursor"], "dup_text_in_word": d["cursordup"]}
+    sig["dup_text_on_path"] = bool(d.get("pathdup", False))
     sig["last_word"] = classes[-1] if classes else "none"
     if classes and classes[-1].startswith("fail"):
         sig["fail_position"] = "last_before_cursor"
